@@ -6,6 +6,7 @@ import (
 	"fmt"
 	"log/slog"
 	"os"
+	"os/exec"
 	"path/filepath"
 	"regexp"
 	"strconv"
@@ -710,6 +711,24 @@ func (s *Scn) do(op string) Outcome {
 		}
 		err := s.DB.ResetLocalState(ctx)
 		return Outcome{Err: err}
+	case "RSETCLI":
+		// the `litestream reset <db>` command (cmd/litestream/reset.go), run as a process while litestream is down;
+		// the binary is built from the tree under test by run.sh / setup.sh (illegal if it is not there)
+		if s.LSOpen {
+			return ill
+		}
+		cli := filepath.Join(os.Getenv("VERIF_ROOT"), "bin", "litestream-cli")
+		if os.Getenv("VERIF_ROOT") == "" {
+			cli = "/verif/bin/litestream-cli"
+		}
+		if _, err := os.Stat(cli); err != nil {
+			return ill
+		}
+		out, err := exec.Command(cli, "reset", s.DBPath).CombinedOutput()
+		if err != nil {
+			return Outcome{Err: fmt.Errorf("litestream reset: %v: %s", err, strings.TrimSpace(string(out)))}
+		}
+		return Outcome{}
 	case "RMMETA":
 		if s.LSOpen {
 			return ill
